@@ -239,12 +239,17 @@ def check_morton(rep, h):
     return bits
 
 
-def run(rep, tier):
+def harnesses(tier):
     Ns = (1, 2, 3) if tier == "quick" else (1, 2, 3, 4)
     Ss = ("size_t", "int") if tier == "quick" else ("size_t", "unsigned", "int")
     hs_s = [make_strided(N, s) for N in Ns for s in Ss]
     hs_mp = [make_morton(N, s, False) for N in Ns for s in Ss] + [make_morton_static(N, s, False) for N in Ns for s in Ss]
     hs_mb = [make_morton(N, s, True) for N in Ns for s in Ss] + [make_morton_static(N, s, True) for N in Ns for s in Ss]
+    return hs_s, hs_mp, hs_mb
+
+
+def run(rep, tier):
+    hs_s, hs_mp, hs_mb = harnesses(tier)
     harness.build(hs_s + hs_mp, "c14a")
     harness.build(hs_mb, "c14b", extra=("-mbmi2",))
     for h in hs_s:
